@@ -274,9 +274,17 @@ def run_atheris(ctx, rec, runs):
         corpus, out = os.path.join(tmp, "corpus"), os.path.join(tmp, "out")
         os.makedirs(corpus)
         os.makedirs(out)
+        # Hypothesis needs a few hundred bytes of choices per abstract program: start from long pseudo-random seeds
+        # (derived from the run's seed) and switch off libFuzzer's gradual length control
+        import hashlib
+
+        for k in range(8):
+            blob = b"".join(hashlib.sha256(("%d/%d/%d" % (ctx.hseed("atheris-corpus"), k, j)).encode()).digest() for j in range(48))
+            with open(os.path.join(corpus, "seed%d" % k), "wb") as f:
+                f.write(blob if k else bytes(1536))
         env = dict(os.environ, VCHECK_FUZZ_OUT=out, PYTHONPATH=os.environ.get("PYTHONPATH", "") + os.pathsep + deps)
         cmd = [sys.executable, "-W", "ignore", "-m", "vcheck.fuzz.roundtrip_target", corpus, "-runs=%d" % runs,
-               "-seed=%d" % (ctx.hseed("atheris") % (2 ** 31 - 2) + 1), "-max_len=2048", "-artifact_prefix=" + out + os.sep,
+               "-seed=%d" % (ctx.hseed("atheris") % (2 ** 31 - 2) + 1), "-max_len=2048", "-len_control=0", "-artifact_prefix=" + out + os.sep,
                "-print_final_stats=1", "-timeout=120", "-rss_limit_mb=4096"]
         res = subprocess.run(cmd, cwd=VERIF_DIR, env=env, capture_output=True, text=True, timeout=7200)
         execs = 0
